@@ -70,6 +70,12 @@ MUTATIONS = [
     dict(id="M10", prop="C02", file="nutree/tree.py", what="tree[key] treats a falsy int/str key as data instead of as data_id",
          old="        if isinstance(data, (int, str)) and data in self._nodes_by_data_id:",
          new="        if data and isinstance(data, (int, str)) and data in self._nodes_by_data_id:"),
+    dict(id="M21", prop="C02", file="nutree/tree.py", what="find_all(data_id=, max_results=k) slices res[k:] again (D26 regression)",
+         old="                return res[:max_results] if max_results else list(res)",
+         new="                return res[max_results:] if max_results else list(res)"),
+    dict(id="M22", prop="C02", file="nutree/tree.py", what="_register() of a node whose id has a group inserts it at the front when the group has 2+ members... (index order) - find_first still a carrier; NOT a property violation, correspondence only",
+         old="            clone_list.append(node)",
+         new="            clone_list.insert(0, node) if len(clone_list) > 1 else clone_list.append(node)"),
     # ---- C03 ----
     dict(id="M11", prop="C03", file="nutree/node.py", what="move_to() skips the uniqueness check when the target is the tree root",
          old="        if new_parent is not self._parent:\n            for n in new_parent.children:\n                if n._data_id == self._data_id:",
